@@ -100,9 +100,19 @@ func (s *State) globalPtr(g *ssa.Global) Value {
 	}
 	t := g.Type().(*types.Pointer).Elem()
 	p := s.allocType(t)
+	isOwn := g.Pkg != nil && strings.HasPrefix(g.Pkg.Pkg.Path(), logPath)
 	if s.eng.initPhase {
 		s.eng.baseGlobals[g] = p.ID
+		if isOwn {
+			s.eng.globalIDs[p.ID] = true
+		}
 	} else {
+		if isOwn {
+			if s.extraGlobIDs == nil {
+				s.extraGlobIDs = map[int32]bool{}
+			}
+			s.extraGlobIDs[p.ID] = true
+		}
 		if s.extraGlobs == nil {
 			s.extraGlobs = map[*ssa.Global]int32{}
 		}
